@@ -4,6 +4,8 @@ import json, os
 import vlib
 
 PAD = "p" * 200
+BIGPAD = "q" * 3000          # above TOAST_THRESHOLD: stored out of line
+BIG_PROBE_IDS = [1, 64, 129]
 PROBE_IDS = [1, 2, 7, 8, 9, 31, 32, 33, 63, 64, 65, 127, 128, 129, 200, 255, 256, 257]
 SETUP = ["CREATE TABLE w (id INT PRIMARY KEY, a INT, pad TEXT, c INT)", "CREATE INDEX w_a ON w (a)"]
 CBASE = 100000
@@ -32,6 +34,12 @@ def op_ops(op):
         return [{"k": "exec", "sql": "UPDATE w SET a = a + 1 WHERE id BETWEEN %d AND %d" % (op["lo"], op["hi"])}]
     if k == "reopen":
         return [{"k": "reopen"}]
+    if k == "pad_grow":
+        return [{"k": "exec", "sql": "UPDATE w SET pad = '%s' WHERE id BETWEEN %d AND %d" % (BIGPAD, op["lo"], op["hi"])}]
+    if k == "pad_shrink":
+        return [{"k": "exec", "sql": "UPDATE w SET pad = '%s' WHERE id BETWEEN %d AND %d" % (PAD, op["lo"], op["hi"])}]
+    if k == "delete_big":
+        return [{"k": "exec", "sql": "DELETE FROM w WHERE LENGTH(pad) > 1000"}]
     if k == "create_index":
         return [{"k": "exec", "sql": "CREATE INDEX w_%s ON w (%s)" % (op["col"], op["col"])}]
     if k == "drop_index":
@@ -48,6 +56,8 @@ def probe_ops(n):
     ops += [{"k": "query", "sql": "SELECT id FROM w WHERE a = 3"}]
     ops += [{"k": "query", "sql": "SELECT COUNT(*) FROM w WHERE pad = '%s'" % PAD}, {"k": "query", "sql": "SELECT id FROM w WHERE pad = '%s'" % PAD}]
     ops += [{"k": "query", "sql": "SELECT id FROM w WHERE c = %d" % (CBASE - i)} for i in ids]
+    ops += [{"k": "query", "sql": "SELECT COUNT(*) FROM w WHERE LENGTH(pad) > 1000"}]          # a predicate over out-of-line values
+    ops += [{"k": "query", "sql": "SELECT pad FROM w WHERE id = %d" % i} for i in BIG_PROBE_IDS]       # plain projection (length taken here)
     return ops, ids
 
 
@@ -58,14 +68,17 @@ def describe(hist):
         out.append({"insert_run": lambda: "insert %d..%d %s" % (op["lo"], op["lo"] + op["len"] - 1, op["ord"]),
                     "delete_range": lambda: "delete id in %d..%d" % (op["lo"], op["hi"]), "delete_eq": lambda: "delete a=%d" % op["v"],
                     "update_range": lambda: "a+=1 for id in %d..%d" % (op["lo"], op["hi"]), "reopen": lambda: "reopen",
+                    "delete_big": lambda: "delete where LENGTH(pad) > 1000",
+                    "pad_grow": lambda: "pad := 3000 bytes for id in %d..%d" % (op["lo"], op["hi"]), "pad_shrink": lambda: "pad := 200 bytes for id in %d..%d" % (op["lo"], op["hi"]),
                     "create_index": lambda: "CREATE INDEX on " + op["col"], "drop_index": lambda: "DROP INDEX on " + op["col"]}.get(op["k"], lambda: op["k"])())
     return "; ".join(out)
 
 
-def walks(chk, num, depth, n=400, ddl=False):
-    cfg = vlib.scratch() + "/GenWide%d.cfg" % ddl
-    open(cfg, "w").write(open(os.path.join(vlib.SPEC, "Gen_WideTable.cfg")).read().replace("MaxOps = 12", "MaxOps = %d" % depth).replace("N = 400", "N = %d" % n)
-                         .replace("WithDDL = FALSE", "WithDDL = %s" % ("TRUE" if ddl else "FALSE")))
+def walks(chk, num, depth, n=400, ddl=False, pad=True, cap=None):
+    cfg = vlib.scratch() + "/GenWide%d%d.cfg" % (ddl, pad)
+    open(cfg, "w").write(open(os.path.join(vlib.SPEC, "Gen_WideTableSlim.cfg")).read().replace("MaxOps = 12", "MaxOps = %d" % depth).replace("N = 400", "N = %d" % n)
+                         .replace("WithDDL = FALSE", "WithDDL = %s" % ("TRUE" if ddl else "FALSE"))
+                         .replace("WithPad = FALSE", "WithPad = %s" % ("TRUE" if pad else "FALSE")))
     sim = vlib.run_tlc("MC_WideTable.tla", cfg, workers=1, timeout=1500, simulate="num=%d" % num, seed=chk.seed, extra=["-depth", str(depth)])
     em = vlib.parse_emitted(sim["out"])
     hists, prev = [], None
@@ -82,6 +95,14 @@ def walks(chk, num, depth, n=400, ddl=False):
             seen.add(k)
             uniq.append(h)
     hists = uniq
+    if cap and len(hists) > cap:
+        # TLC prints every candidate successor of a walk: keep the longest behaviours (the walks themselves) and a seeded sample
+        import random
+        rng = random.Random(chk.seed)
+        full = [h for h in hists if len(h) == depth]
+        rest = [h for h in hists if len(h) < depth]
+        rng.shuffle(full); rng.shuffle(rest)
+        hists = full[: max(1, cap // 2)] + rest[: cap - min(len(full), max(1, cap // 2))]
     if not hists:
         raise vlib.ToolError("TLC -simulate produced no WideTable behaviours:\n" + sim["out"][-1500:])
     return hists
@@ -165,16 +186,32 @@ def judge(hists, outs, n=400):
             if sorted(r[0] for r in pr[j]["rows"]) != want:
                 probs.append((h[:si + 1], "index", {"what": "secondary_eq_rows", "scan_n": len(want), "observed_n": len(pr[j]["rows"])})); bad = True
             j += 1
-            if pr[j]["rows"] != [[len(scan)]]:
-                probs.append((h[:si + 1], "index", {"what": "pad_eq_count", "scan": len(scan), "observed": pr[j]["rows"]})); bad = True
+            nsmall = len(scan) - st.get("nbig", 0)          # rows that hold the 200-byte pad (the scan does not show the pad: model)
+            pad_judged = model_scan_ok and got_n == st["n"]          # nsmall is only meaningful while the table follows the model
+            if pad_judged and pr[j]["rows"] != [[nsmall]]:
+                probs.append((h[:si + 1], "index", {"what": "pad_eq_count", "scan": nsmall, "observed": pr[j]["rows"]})); bad = True
             j += 1
-            if sorted(r[0] for r in pr[j]["rows"]) != sorted(scan):
-                probs.append((h[:si + 1], "index", {"what": "pad_eq_rows", "scan_n": len(scan), "observed_n": len(pr[j]["rows"])})); bad = True
+            if pad_judged and (len(pr[j]["rows"]) != nsmall or not set(r[0] for r in pr[j]["rows"]) <= set(scan)):
+                probs.append((h[:si + 1], "index", {"what": "pad_eq_rows", "scan_n": nsmall, "observed_n": len(pr[j]["rows"])})); bad = True
             for i in ids:
                 j += 1
                 want = [[i]] if i in scan else []
                 if pr[j]["rows"] != want:
                     probs.append((h[:si + 1], "index", {"what": "c_point_lookup", "id": i, "scan": want, "observed": pr[j]["rows"]})); bad = True
+            # large values (model kind): a predicate over the out-of-line values, and the pad of three probe rows by projection
+            j += 1
+            if "nbig" in st:
+                if pr[j]["rows"] != [[st["nbig"]]]:
+                    probs.append((h[:si + 1], "model", {"what": "predicate_over_out_of_line_value", "query": "COUNT(*) WHERE LENGTH(pad) > 1000", "expected": st["nbig"], "observed": pr[j]["rows"]})); bad = True
+                bp = st["bigpts"]
+                bp = {int(k): v for k, v in (bp.items() if isinstance(bp, dict) else zip(BIG_PROBE_IDS, bp))}
+                for i in BIG_PROBE_IDS:
+                    j += 1
+                    want = [] if i not in scan else [[3000 if bp.get(i) else 200]]
+                    got = [[len(r[0]) if isinstance(r[0], str) else r[0]] for r in pr[j]["rows"]]
+                    if got != want:
+                        probs.append((h[:si + 1], "model", {"what": "pad_length", "id": i, "expected": want, "observed": got})); bad = True
+                stats["big_pad_rows_max"] = max(stats.get("big_pad_rows_max", 0), st["nbig"])
             if not bad:
                 stats["ok"] += 1
             if not model_scan_ok or got_n != st["n"]:
@@ -186,14 +223,14 @@ def judge(hists, outs, n=400):
 def replay(chk, rep, kind, prefix="wide"):
     """bin/check CNN --replay: re-run one recorded WideTable behaviour and classify what shows again"""
     h, ddl = rep["wide_hist"], bool(rep.get("wide_ddl"))
-    n = 1000 if ddl else 400
+    n = 700 if ddl else 400
     vlib.build_harness()
     probs, st = judge([h], execute([h], n=n, ddl=ddl), n=n)
     print("replayed:", describe(h))
     for hp, k, d in probs:
         print("  %s after step %d: %s" % (k, len(hp), json.dumps(d)[:300]))
         if k == kind:
-            chk.classify("%s:%s:%s" % (prefix, d["what"], hp[-1]["op"]["k"]), {"behaviour": describe(hp), "wide_hist": hp, "wide_ddl": ddl, "detail": d})
+            chk.classify("wide:predicate_over_out_of_line_value" if d["what"] == "predicate_over_out_of_line_value" else "%s:%s:%s" % (prefix, d["what"], hp[-1]["op"]["k"]), {"behaviour": describe(hp), "wide_hist": hp, "wide_ddl": ddl, "detail": d})
     chk.cov = {"evaluations": st["steps"], "distinct_nontrivial": max(2, st["steps"]), "rule": "replay of one recorded behaviour", "samples": [describe(h)],
                "states": 1, "transitions": len(h), "traces_validated_against_impl": 1}
     return chk.finish()
